@@ -1,7 +1,7 @@
 /-
 `vmodel`: line-protocol driver of the executable Lean model.
 Reads one case per line on stdin, prints `<stream> <id> MODEL <observation>` per case.
-Usage: `vmodel [--fixes <digits 0/1: f1 f2 f3 f4 f5 f2b f8 f10 f14 f12>]`.
+Usage: `vmodel [--fixes <digits 0/1: f1 f2 f3 f4 f5 f2b f8 f10 f14 f12 f29>]`.
 -/
 import Vibrato.Driver.Tok
 import Vibrato.Driver.Tok16
@@ -14,11 +14,14 @@ import Vibrato.Driver.Extractor
 import Vibrato.Driver.MecabSpec
 import Vibrato.Driver.Trainer
 import Vibrato.Driver.TrainerNew
+import Vibrato.Driver.EvalSplit
 
 open Vibrato Vibrato.Driver
 
 structure DState where
   dicts : Tok.Dicts := []
+  /-- finding F29 repaired (`evaluate`'s own `parse_csv_row`): 11th digit of `--fixes`, default repaired -/
+  f29 : Bool := true
 
 def parseFixes (s : String) : Fixes :=
   let b (i : Nat) : Bool := (s.toList.getD i '1') == '1'
@@ -37,6 +40,7 @@ def stepLine (fx : Fixes) (st : DState) (line : String) : DState × String :=
       | none => st
     (st', s!"def {name} MODEL {obs}")
   | "tok" :: id :: rest => (st, s!"tok {id} MODEL {Tok.handleTokP fx st.dicts rest}")
+  | "evalsplit" :: id :: rest => (st, s!"evalsplit {id} MODEL {EvalSplit.handleWith st.f29 rest}")
   | "tok16" :: id :: rest => (st, s!"tok16 {id} MODEL {Tok16.handle rest}")
   | "rewrite" :: id :: rest =>
     let inp := input rest
@@ -131,5 +135,8 @@ def main (args : List String) : IO Unit := do
     | _ => Fixes.all
   let stdin ← IO.getStdin
   let stdout ← IO.getStdout
-  loop fx stdin stdout {}
+  let f29 := match args with
+    | "--fixes" :: s :: _ => (s.toList.getD 10 '1') == '1'
+    | _ => true
+  loop fx stdin stdout { f29 := f29 }
   stdout.flush
